@@ -18,6 +18,7 @@ const TOKENS: [&str; 13] = ["\"", "\\", "\n", "\r", "\t", "\u{1}", "é", "😀",
 const SUBJECTS: [&str; 5] = ["http://e.org/s", "http://e.org/a%20b#frag", "http://e.org/é😀", "_:b0", "_:b1"];
 /// three that split into namespace + NCName (at '#', at '/', the rdf namespace), one that does not (local name starts with a digit)
 const PREDICATES: [&str; 4] = ["http://e.org/ns#p", "http://e.org/ns/p", "http://www.w3.org/1999/02/22-rdf-syntax-ns#type", "http://e.org/ns/1"];
+const LANG_TAGS: [&str; 8] = ["es-419", "zh-hant-tw", "zh-hant-hk", "de-ch-1901", "sr-latn-rs", "en-x-foo", "sl-rozaj-biske-1994", "x-private"];
 const XSD_INTEGER: &str = "http://www.w3.org/2001/XMLSchema#integer";
 const CUSTOM_DT: &str = "http://e.org/dt#T";
 
@@ -49,6 +50,13 @@ fn objects(max_tokens: usize) -> Vec<T> {
         v.push(T::Lit(lf.clone(), "en-gb".into(), "".into()));
         v.push(T::Lit(lf.clone(), "".into(), XSD_INTEGER.into()));
         v.push(T::Lit(lf, "".into(), CUSTOM_DT.into()));
+    }
+    // the language-tag lattice (1, 2, 3 and 4 subtags, numeric region, variant, private use) on the
+    // lexical forms of <= 1 token
+    for lf in lexical_forms(1) {
+        for tag in LANG_TAGS {
+            v.push(T::Lit(lf.clone(), tag.to_string(), "".into()));
+        }
     }
     v
 }
